@@ -25,10 +25,13 @@ CONSTANTS NP,          \* payment ids 1..NP (id p pays hash p)
           MaxOps       \* bound on the script length
 
 VARIABLES dst, dparts, dn, evq, ticks, saved, dirty, net, nextId, decided, paid,
-          nDup, nRestart, nSend, obs, hist, quiet, nops
+          nDup, nRestart, nSend, obs, hist, quiet, nops,
+          feat   \* features the behaviour has shown so far (part of the state, so that a behaviour with a
+                 \* repeated event / duplicate delivery / refused send is printed even if it ends in a
+                 \* state that a plainer behaviour reaches too)
 
 dvars == <<dst, dparts, dn, evq, ticks, saved, dirty, net, nextId, decided, paid, nDup, nRestart, nSend>>
-mvars == <<svars, dvars, obs, hist, quiet, nops>>
+mvars == <<svars, dvars, obs, hist, quiet, nops, feat>>
 
 P == 1..NP
 Amt == 1000
@@ -44,9 +47,10 @@ MCInit ==
   /\ nextId = [c \in 1..(2 * K) |-> 0]
   /\ decided = [p \in P |-> "none"] /\ paid = 0
   /\ nDup = 0 /\ nRestart = 0 /\ nSend = [p \in P |-> 0]
-  /\ obs = <<[t |-> "open"]>> /\ hist = <<>> /\ quiet = FALSE /\ nops = 0
+  /\ obs = <<[t |-> "open"]>> /\ hist = <<>> /\ quiet = FALSE /\ nops = 0 /\ feat = {}
 
 H(op) == hist' = Append(hist, op) /\ nops' = nops + 1
+F(S) == feat' = feat \cup S
 Idle == obs = <<>>
 Path(k) == <<k, K + k>>
 
@@ -69,6 +73,10 @@ MObs ==
        [] o.t = "recent" -> SRecentAfterRestart(0, o.listed)
        [] o.t = "quiet" -> SQuietOK([n \in 0..D |-> IF n = 0 THEN Init0 - paid ELSE Init0], IF o.idle THEN {0} ELSE {}) /\ UNCHANGED svars
   /\ obs' = Tail(obs)
+  /\ LET o == Head(obs) IN
+     F(IF o.t = "evsent" /\ o.p \in Pids /\ pay[o.p].term = "sent" THEN {"sent-repeated"}
+       ELSE IF o.t = "evfailed" /\ o.p \in Pids /\ pay[o.p].term = "failed" /\ pay[o.p].owed = 0 THEN {"failed-repeated"}
+       ELSE {})
   /\ UNCHANGED <<dvars, hist, quiet, nops>>
 
 Emit(seq) == obs' = seq /\ UNCHANGED svars
@@ -93,7 +101,7 @@ MSend(p, n) ==
           /\ UNCHANGED <<evq, saved, paid, nDup, nRestart>>
      ELSE /\ Emit(<<[t |-> "send", p |-> p, n |-> n, res |-> "dup"]>>)
           /\ UNCHANGED <<dst, dparts, dn, evq, ticks, saved, dirty, net, nextId, decided, paid, nDup, nRestart>>
-  /\ H([op |-> "send", p |-> p, n |-> n]) /\ quiet' = FALSE
+  /\ H([op |-> "send", p |-> p, n |-> n]) /\ quiet' = FALSE /\ F(IF dst[p] \in {"none", "gone"} THEN {} ELSE {"send-refused"})
 
 \* the terminal events: abandon_payment / fail_htlc push PaymentFailed once no part remains
 MAbandon(p) ==
@@ -102,7 +110,7 @@ MAbandon(p) ==
      THEN dst' = [dst EXCEPT ![p] = "gone"] /\ evq' = Append(evq, [k |-> "failed", p |-> p])
      ELSE dst' = [dst EXCEPT ![p] = "aband"] /\ UNCHANGED evq
   /\ UNCHANGED <<svars, obs, dparts, dn, ticks, saved, dirty, net, nextId, decided, paid, nDup, nRestart, nSend>>
-  /\ H([op |-> "abandon", p |-> p]) /\ quiet' = FALSE
+  /\ H([op |-> "abandon", p |-> p]) /\ quiet' = FALSE /\ F(IF dparts[p] # {} THEN {"abandon-in-flight"} ELSE {})
 
 MHandle ==
   /\ Idle /\ evq # <<>>
@@ -113,7 +121,7 @@ MHandle ==
               [] OTHER -> [t |-> "evother"]>>)
   /\ evq' = Tail(evq)
   /\ UNCHANGED <<dst, dparts, dn, ticks, saved, dirty, net, nextId, decided, paid, nDup, nRestart, nSend>>
-  /\ H([op |-> "handle"]) /\ quiet' = FALSE
+  /\ H([op |-> "handle"]) /\ quiet' = FALSE /\ F({})
 
 \* remove_stale_payments
 InQueue(p) == \E i \in 1..Len(evq) : evq[i].p = p /\ evq[i].k \in {"sent", "pathok", "pathfailed"}
@@ -123,7 +131,7 @@ MTick ==
      /\ ticks' = [p \in P |-> IF stale(p) THEN ticks[p] + 1 ELSE IF dst[p] = "ful" THEN 0 ELSE ticks[p]]
      /\ dst' = [p \in P |-> IF stale(p) /\ ticks[p] + 1 > Idem THEN "gone" ELSE dst[p]]
   /\ UNCHANGED <<svars, obs, dparts, dn, evq, saved, dirty, net, nextId, decided, paid, nDup, nRestart, nSend>>
-  /\ H([op |-> "tick"]) /\ quiet' = FALSE
+  /\ H([op |-> "tick"]) /\ quiet' = FALSE /\ F({})
 
 MSave ==
   /\ Idle /\ nRestart < MaxRestart
@@ -131,7 +139,7 @@ MSave ==
   /\ dirty' = FALSE
   /\ Emit(<<[t |-> "save"]>>)
   /\ UNCHANGED <<dst, dparts, dn, evq, ticks, net, nextId, decided, paid, nDup, nRestart, nSend>>
-  /\ H([op |-> "save"]) /\ quiet' = FALSE
+  /\ H([op |-> "save"]) /\ quiet' = FALSE /\ F({})
 
 \* restart from a snapshot the monitors have not moved past
 MRestart ==
@@ -142,7 +150,7 @@ MRestart ==
   /\ nRestart' = nRestart + 1
   /\ Emit(<<[t |-> "restart"], [t |-> "recent", listed |-> {p \in P : saved.dst[p] \notin {"none", "gone"}}]>>)
   /\ UNCHANGED <<saved, dirty, nextId, decided, paid, nDup, nSend>>
-  /\ H([op |-> "restart"]) /\ quiet' = FALSE
+  /\ H([op |-> "restart"]) /\ quiet' = FALSE /\ F(IF saved.evq # <<>> THEN {"restart-with-queued-events"} ELSE {})
 
 \* ---------------------------------------------------------------- the network and the recipient
 MArrive(p, k) ==
@@ -151,7 +159,7 @@ MArrive(p, k) ==
   /\ nextId' = [nextId EXCEPT ![K + k] = @ + 1]
   /\ Emit(<<[t |-> "add", node |-> k, chan |-> K + k, id |-> nextId[K + k], hash |-> p]>>)
   /\ UNCHANGED <<dst, dparts, dn, evq, ticks, saved, dirty, decided, paid, nDup, nRestart, nSend>>
-  /\ H([op |-> "arrive", p |-> p, k |-> k]) /\ quiet' = FALSE
+  /\ H([op |-> "arrive", p |-> p, k |-> k]) /\ quiet' = FALSE /\ F({})
 
 \* B_k cannot forward (its channel to D is unusable): it fails the part back
 MFailHop(p, k) ==
@@ -159,7 +167,7 @@ MFailHop(p, k) ==
   /\ net' = [net EXCEPT ![<<p, k>>].loc = "retFail", ![<<p, k>>].origin = 1]
   /\ Emit(<<[t |-> "failmsg", chan |-> k, adder |-> 0, id |-> net[<<p, k>>].id]>>)
   /\ UNCHANGED <<dst, dparts, dn, evq, ticks, saved, dirty, nextId, decided, paid, nDup, nRestart, nSend>>
-  /\ H([op |-> "failhop", p |-> p, k |-> k]) /\ quiet' = FALSE
+  /\ H([op |-> "failhop", p |-> p, k |-> k]) /\ quiet' = FALSE /\ F({})
 
 \* D claims: only a complete set of parts (all-or-nothing recipient)
 MClaim(p) ==
@@ -169,7 +177,7 @@ MClaim(p) ==
   /\ net' = [x \in DOMAIN net |-> IF x[1] = p /\ net[x].loc = "held" THEN [net[x] EXCEPT !.loc = "retFul"] ELSE net[x]]
   /\ Emit(<<[t |-> "claimcall", hash |-> p]>>)
   /\ UNCHANGED <<dst, dparts, dn, evq, ticks, saved, dirty, nextId, paid, nDup, nRestart, nSend>>
-  /\ H([op |-> "claim", p |-> p]) /\ quiet' = FALSE
+  /\ H([op |-> "claim", p |-> p]) /\ quiet' = FALSE /\ F({})
 
 \* D fails back whatever it holds of the payment (fail_htlc_backwards / MPP timeout)
 MFailR(p) ==
@@ -183,7 +191,7 @@ MFailR(p) ==
                    IF i % 2 = 1 THEN [t |-> "failmsg", chan |-> K + k, adder |-> k, id |-> net[<<p, k>>].id2]
                                 ELSE [t |-> "failmsg", chan |-> k, adder |-> 0, id |-> net[<<p, k>>].id]])
   /\ UNCHANGED <<dst, dparts, dn, evq, ticks, saved, dirty, nextId, decided, paid, nDup, nRestart, nSend>>
-  /\ H([op |-> "failr", p |-> p]) /\ quiet' = FALSE
+  /\ H([op |-> "failr", p |-> p]) /\ quiet' = FALSE /\ F({})
 
 \* claim_htlc: the first fulfil of a payment that is not yet fulfilled queues PaymentSent
 ClaimHtlc(p) ==
@@ -204,7 +212,7 @@ MDeliver(p, k) ==
           /\ UNCHANGED <<dst, evq>>
           /\ Emit(<<[t |-> "resolve", chan |-> k, id |-> net[<<p, k>>].id, how |-> "fail"]>>)
   /\ UNCHANGED <<dparts, dn, ticks, saved, dirty, nextId, decided, paid, nDup, nRestart, nSend>>
-  /\ H([op |-> "deliver", p |-> p, k |-> k]) /\ quiet' = FALSE
+  /\ H([op |-> "deliver", p |-> p, k |-> k]) /\ quiet' = FALSE /\ F({})
 
 \* the link A - B_k drops before the resolution is committed: B_k hands it over again
 MDup(p, k) ==
@@ -214,7 +222,7 @@ MDup(p, k) ==
      THEN ClaimHtlc(p) /\ Emit(<<[t |-> "resolve", chan |-> k, id |-> net[<<p, k>>].id, how |-> "ful"]>>)
      ELSE UNCHANGED <<dst, evq>> /\ Emit(<<[t |-> "resolve", chan |-> k, id |-> net[<<p, k>>].id, how |-> "fail"]>>)
   /\ UNCHANGED <<dparts, dn, ticks, saved, dirty, net, nextId, decided, paid, nRestart, nSend>>
-  /\ H([op |-> "dup", p |-> p, k |-> k]) /\ quiet' = FALSE
+  /\ H([op |-> "dup", p |-> p, k |-> k]) /\ quiet' = FALSE /\ F(IF net[<<p, k>>].loc = "dlvFul" THEN {"dup-fulfil"} ELSE {"dup-fail"})
 
 \* the removal becomes irrevocable: finalize_claims / fail_htlc
 Blamed(k, origin) == IF origin = 1 THEN K + k ELSE 0
@@ -238,7 +246,7 @@ MCommit(p, k) ==
                         THEN dst' = [dst EXCEPT ![p] = "gone"] /\ evq' = evq \o <<pf, [k |-> "failed", p |-> p]>>
                         ELSE dst' = [dst EXCEPT ![p] = "aband"] /\ evq' = Append(evq, pf)
   /\ UNCHANGED <<svars, obs, dn, ticks, saved, nextId, decided, nDup, nRestart, nSend>>
-  /\ H([op |-> "commit", p |-> p, k |-> k]) /\ quiet' = FALSE
+  /\ H([op |-> "commit", p |-> p, k |-> k]) /\ quiet' = FALSE /\ F({})
 
 \* every link up and empty, every event handled
 Moving == \E x \in DOMAIN net : net[x].loc \in {"out", "retFul", "retFail", "dlvFul", "dlvFail"}
@@ -246,7 +254,7 @@ MQuiet ==
   /\ Idle /\ evq = <<>> /\ ~Moving /\ ~quiet /\ hist # <<>>
   /\ Emit(<<[t |-> "quiet", idle |-> \A x \in DOMAIN net : net[x].loc \in {"no", "done"}]>>)
   /\ quiet' = TRUE
-  /\ UNCHANGED <<dvars, hist, nops>>
+  /\ UNCHANGED <<dvars, hist, nops, feat>>
 
 MDone == quiet /\ Idle /\ UNCHANGED mvars
 
@@ -261,7 +269,7 @@ MCNext ==
 MCSpec == MCInit /\ [][MCNext]_mvars
 
 Bound == nops <= MaxOps
-View == <<svars, dvars, obs, quiet, nops>>
+View == <<svars, dvars, obs, quiet, nops, feat>>
 
 \* the design never needs a second terminal event and never forgets one (redundant with the
 \* guards of PaySend, stated on the design state for readability of counterexamples)
